@@ -10,6 +10,7 @@ def check(ctx, prog):
     optimize.rule_tighten(ctx, prog)
     optimize.rule_offset_primitives(ctx, prog)
     optimize.rule_reset(ctx, prog)
+    optimize.rule_domain_source(ctx, prog)
     optimize.rule_is_solved(ctx, prog)
     process.rule_keepbest(ctx, prog)
     model.rule_optional_zero(ctx, prog)
